@@ -11,8 +11,10 @@ package cache
 // only reaches callers overlapping the failing query.  Runner / generator: internal/verifc07.
 
 import (
+	"context"
 	"errors"
 	"fmt"
+	"sync"
 	"testing"
 	"time"
 
@@ -29,7 +31,7 @@ type c07Row struct {
 
 func TestVerifC07CacheNode(t *testing.T) {
 	secs := verifh.Sections(func(r *verifh.Rng) []verifh.Section {
-		return verifc07.Gen(r, verifh.Scale(50, 1200), "cacheNode.Take")
+		return verifc07.Gen(r, verifh.Scale(150, 1500), "cacheNode.Take")
 	})
 	mr := miniredis.RunT(t)
 	rds := redis.New(mr.Addr())
@@ -56,9 +58,22 @@ func TestVerifC07CacheNode(t *testing.T) {
 			}
 			nodes = append(nodes, NewNode(rds, barrier, st, errNotFound, opts...))
 		}
+		// dst=1: one destination variable per goroutine, reused call after call and overwritten (poisoned with
+		// 900000 + call id) as soon as the Take that filled it has returned
+		reuse := cfg.Int("dst", 0) == 1
+		var rowMu sync.Mutex
+		rows := map[int]*c07Row{}
 		return verifc07.Target{
 			Invoke: func(c *verifc07.Call, fn func() (any, error)) (any, string, error) {
-				var row c07Row
+				prow := new(c07Row)
+				if reuse {
+					rowMu.Lock()
+					if rows[c.G()] == nil {
+						rows[c.G()] = new(c07Row)
+					}
+					prow = rows[c.G()]
+					rowMu.Unlock()
+				}
 				node := nodes[(c.Key()/100)%n]
 				key := fmt.Sprintf("c07:%d", c.Key())
 				load := func(v any) error {
@@ -70,16 +85,27 @@ func TestVerifC07CacheNode(t *testing.T) {
 					return nil
 				}
 				var err error
-				if c.Ex() {
-					// the second entry point into doTake
-					err = node.TakeWithExpire(&row, key, func(v any, _ time.Duration) error { return load(v) })
-				} else {
-					err = node.Take(&row, key, load)
+				loadEx := func(v any, _ time.Duration) error { return load(v) }
+				switch c.EP() {
+				case 1:
+					err = node.TakeWithExpire(prow, key, loadEx)
+				case 2:
+					err = node.TakeCtx(context.Background(), prow, key, load)
+				case 3:
+					ctx, cancel := context.WithTimeout(context.Background(), time.Hour)
+					defer cancel()
+					err = node.TakeWithExpireCtx(ctx, prow, key, loadEx)
+				default:
+					err = node.Take(prow, key, load)
 				}
 				if err != nil {
 					return nil, "-", err
 				}
-				return verifc07.Val{ID: row.ID}, "-", nil
+				got := prow.ID
+				if reuse {
+					prow.ID = 900000 + c.ID()
+				}
+				return verifc07.Val{ID: got}, "-", nil
 			},
 		}
 	})
